@@ -236,6 +236,23 @@ func c06Datagram(cs *core.Case, fs []frame, source string) {
 			}
 		}
 	}
+	// CompoundPacket.Unmarshal splits the same way: when it accepts, its members are these packets
+	{
+		var cp rtcp.CompoundPacket
+		var cerr error
+		if panicked, v, st := core.Guard(func() { cerr = cp.Unmarshal(cloneBytes(in)) }); panicked {
+			cs.Fail("panic/CompoundPacket.Unmarshal", det(core.W{"panic": v, "stack": st}))
+			return
+		}
+		cs.Eval(1)
+		if cerr == nil {
+			cs.Count("compound-decoder-agrees")
+			if !mon.SemEqual([]rtcp.Packet(cp), ps) {
+				cs.Fail("exactly-once/compound-decoder-differs", det(core.W{"compound": vdump(&cp), "datagram": vdump(ps)}))
+				return
+			}
+		}
+	}
 	// concat at split points
 	for _, sp := range splitPoints(r, len(fs)) {
 		a, b := concatFrames(fs[:sp]), concatFrames(fs[sp:])
@@ -362,6 +379,18 @@ func runC06(c *core.Ctx) {
 			r := cs.R
 			nf := r.Pick(1, 2, 2, 3, 3, 4, 5, 8, 12, 40)
 			var fs []frame
+			if r.Chance(1, 4) {
+				// compound-shaped prefix: (SR|RR) RR* SDES-with-CNAME, so that CompoundPacket.Unmarshal accepts too
+				for _, m := range *gen.CompoundValue(r, gen.Opts{Small: true, NoBig: true}) {
+					if src == "own-marshal" {
+						if b, err, pan := gMarshal(m); err == nil && pan == "" && len(b) >= 4 {
+							fs = append(fs, frame{gen.KindOf(m), b, m})
+						}
+					} else if e, err := ref.Encode(m, ref.Lib); err == nil {
+						fs = append(fs, frame{gen.KindOf(m), e.B, m})
+					}
+				}
+			}
 			for len(fs) < nf {
 				f, ok := genFrame(r, src == "own-marshal")
 				if ok && len(f.b) >= 4 {
